@@ -125,3 +125,86 @@ pub assume_specification[ <String as AsRef<str>>::as_ref ](s: &String) -> (r: &s
 pub assume_specification<T, A: std::alloc::Allocator>[ <Vec<T, A> as AsRef<[T]>>::as_ref ](v: &Vec<T, A>) -> (r: &[T])
     ensures r@ == v@;
 '''
+
+
+# ---- shared contracts (DESIGN 3.3): verified in unit value_arith, assumed (same text, stub) elsewhere -----------------
+TYPE_PROP_ENS = [
+            ('kinds_int_uint', 'nkind(lhs) is I && nkind(rhs) is U && i64_ok(int_val(rhs)) ==> r.0 == lhs && r.1 == CelValue::Int(int_val(rhs) as i64)'),
+            ('kinds_uint_int', 'nkind(lhs) is U && nkind(rhs) is I && i64_ok(int_val(lhs)) ==> r.1 == rhs && r.0 == CelValue::Int(int_val(lhs) as i64)'),
+            ('unrepresentable_uint_kept', '((nkind(lhs) is I && nkind(rhs) is U) || (nkind(lhs) is U && nkind(rhs) is I)) && !(i64_ok(int_val(lhs)) && i64_ok(int_val(rhs))) ==> r.0 == lhs && r.1 == rhs'),
+            ('bool_counts_as_0_1', 'nkind(lhs) is I && nkind(rhs) is B ==> r.0 == lhs && r.1 == CelValue::Int(int_val(rhs) as i64)'),
+            ('bool_counts_as_0_1_u', 'nkind(lhs) is U && nkind(rhs) is B ==> r.0 == lhs && r.1 == CelValue::UInt(int_val(rhs) as u64)'),
+            ('bool_lhs_int', 'nkind(lhs) is B && nkind(rhs) is I ==> r.1 == rhs && r.0 == CelValue::Int(int_val(lhs) as i64)'),
+            ('bool_lhs_uint', 'nkind(lhs) is B && nkind(rhs) is U ==> r.1 == rhs && r.0 == CelValue::UInt(int_val(lhs) as u64)'),
+            ('same_kind_untouched', '(nkind(lhs) == nkind(rhs) || nkind(lhs) is Other || nkind(rhs) is Other) ==> r.0 == lhs && r.1 == rhs'),
+            ('double_wins', '(nkind(lhs) is F && !(nkind(rhs) is Other)) || (nkind(rhs) is F && !(nkind(lhs) is Other)) ==> r.0 is Float && r.1 is Float'),
+            ('double_operand_kept_l', 'nkind(lhs) is F ==> r.0 == lhs'),
+            ('double_operand_kept_r', 'nkind(rhs) is F ==> r.1 == rhs'),
+        ]
+
+
+def type_prop_contract(stub=False):
+    return A(ret='r', ensures=TYPE_PROP_ENS, props=('C03', 'C04', 'C01'), stub=stub)
+
+
+def err_prop_contract(stub=False):
+    return A(
+        ret='r',
+        requires=[('closure_pre', '!(self is Err) && !(rhs is Err) ==> f.requires((self, rhs))')],
+        ensures=[
+            ('left_error_wins', 'self is Err ==> r == self'),
+            ('right_error', '!(self is Err) && rhs is Err ==> r == rhs'),
+            ('otherwise_f', '!(self is Err) && !(rhs is Err) ==> f.ensures((self, rhs), r)'),
+        ],
+        props=('C03', 'C01', 'C04', 'C05', 'C06'), stub=stub)
+
+
+def simple_ctor(body, stub=False):
+    return A(ret='r', ensures=[('def', body)], props=('C01',), stub=stub)
+
+
+CTORS = {
+    'from_int': 'r == CelValue::Int(val)',
+    'from_uint': 'r == CelValue::UInt(val)',
+    'from_float': 'r == CelValue::Float(val)',
+    'from_bool': 'r == CelValue::Bool(val)',
+    'from_err': 'r == CelValue::Err(val)',
+    'true_': 'r == CelValue::Bool(true)',
+    'false_': 'r == CelValue::Bool(false)',
+    'from_null': 'r == CelValue::Null',
+    'is_err': 'r == (self is Err)',
+}
+
+
+def ctor_fns(names, stub=True):
+    return {n: simple_ctor(CTORS[n], stub=stub) for n in names}
+
+
+FROM_SPEC_IMPLS = r'''
+impl vstd::std_specs::convert::FromSpecImpl<i64> for CelValue { open spec fn obeys_from_spec() -> bool { true } open spec fn from_spec(v: i64) -> Self { CelValue::Int(v) } }
+impl vstd::std_specs::convert::FromSpecImpl<u64> for CelValue { open spec fn obeys_from_spec() -> bool { true } open spec fn from_spec(v: u64) -> Self { CelValue::UInt(v) } }
+impl vstd::std_specs::convert::FromSpecImpl<f64> for CelValue { open spec fn obeys_from_spec() -> bool { true } open spec fn from_spec(v: f64) -> Self { CelValue::Float(v) } }
+impl vstd::std_specs::convert::FromSpecImpl<bool> for CelValue { open spec fn obeys_from_spec() -> bool { true } open spec fn from_spec(v: bool) -> Self { CelValue::Bool(v) } }
+impl vstd::std_specs::convert::FromSpecImpl<CelError> for CelValue { open spec fn obeys_from_spec() -> bool { true } open spec fn from_spec(v: CelError) -> Self { CelValue::Err(v) } }
+'''
+
+
+def from_impls(U, which=('i64', 'u64', 'f64', 'bool'), stub=False):
+    body = {'i64': 'r == CelValue::Int(val)', 'u64': 'r == CelValue::UInt(val)', 'f64': 'r == CelValue::Float(val)', 'bool': 'r == CelValue::Bool(val)',
+            'CelError': 'r == CelValue::Err(value)'}
+    for t in which:
+        U.extract(CV, f'impl From<{t}> for CelValue', fns={'from': simple_ctor(body[t])})
+
+
+# ---- axioms (each one is an assumption listed in the evidence); exactly one module-level `broadcast use` per unit -------
+AXIOMS = r'''
+pub mod ax { use super::*; use vstd::prelude::*;
+// the sequence an IntoIterator<Item = u8> yields; assumed for Vec<u8>: its elements in order
+pub uninterp spec fn into_iter_seq<T>(t: T) -> Seq<u8>;
+pub broadcast axiom fn axiom_vec_into_iter_seq(v: Vec<u8>) ensures #[trigger] into_iter_seq::<Vec<u8>>(v) == v@;
+// String keys hash and compare consistently (vstd only knows this for primitive keys): HashMap<String, _> then views as Map<String, _>
+pub broadcast axiom fn axiom_string_key_model() ensures #[trigger] vstd::std_specs::hash::obeys_key_model::<String>();
+}
+pub use ax::into_iter_seq;
+broadcast use {vstd::std_specs::hash::group_hash_axioms, ax::axiom_string_key_model, ax::axiom_vec_into_iter_seq};
+'''
